@@ -17,6 +17,7 @@
 #include <limits>
 #include <memory>
 #include <random>
+#include <map>
 #include <string>
 #include <vector>
 
@@ -486,31 +487,94 @@ static tainted<int, Sbx> ptr_cb(RS&, tainted<int*, Sbx> p)
   return 0;
 }
 
+// One observation per (position, representation). Consecutive representations with the same
+// outcome, class, sandbox and the same difference between the address obtained and the
+// representation are logged as ONE run event (replo..rephi): the dense sweeps are long
+// arithmetic progressions. A run of length one is logged as a plain "ptrload".
+struct PtrRunAgg
+{
+  bool open = false;
+  std::string pos, outc, cls, sbn;
+  W lo = 0, hi = 0, d = 0; // d = off - rep ("in") or addr - rep ("out")
+  long off_lo = 0;
+  W addr_lo = 0;
+  void flush()
+  {
+    if (!open) {
+      return;
+    }
+    open = false;
+    tr::Ev e(lo == hi ? "ptrload" : "ptrloadrun");
+    e.str("pos", pos);
+    if (lo == hi) {
+      e.wide("rep", lo);
+    } else {
+      e.wide("replo", lo).wide("rephi", hi).wide("d", d);
+    }
+    e.num("size", SIZE).str("own", "s0").str("out", outc).str("cls", cls);
+    if (cls == "in") {
+      e.str("sb", sbn).num("off", off_lo);
+    } else if (cls == "out") {
+      e.wide("addr", addr_lo);
+    }
+    out.put(e);
+  }
+  void add(const char* p, W rep, const char* o, const char* c, const std::string& sb_, long off, W addr)
+  {
+    W dd = std::strcmp(c, "in") == 0 ? (W)off - rep : std::strcmp(c, "out") == 0 ? addr - rep : 0;
+    if (open && rep == hi + 1 && outc == o && cls == c && sbn == sb_ && dd == d &&
+        (cls == "in" || cls == "out")) {
+      hi = rep;
+      return;
+    }
+    flush();
+    open = true;
+    pos = p;
+    outc = o;
+    cls = c;
+    sbn = sb_;
+    lo = hi = rep;
+    d = dd;
+    off_lo = off;
+    addr_lo = addr;
+  }
+};
+static std::map<std::string, PtrRunAgg> g_ptr_runs;
+static void ptr_flush()
+{
+  for (auto& kv : g_ptr_runs) {
+    kv.second.flush();
+  }
+}
+
 static void ptr_event(const char* pos, W rep, const void* got, const char* outc)
 {
-  tr::Ev e("ptrload");
-  e.str("pos", pos).wide("rep", rep).num("size", SIZE).str("own", "s0").str("out", outc);
   long off = 0;
+  const char* cls;
+  std::string sbn;
+  W addr = 0;
   if (std::strcmp(outc, "ok") != 0) {
-    e.str("cls", "abort");
+    cls = "abort";
   } else if (got == nullptr) {
-    e.str("cls", "null");
+    cls = "null";
   } else {
     int w = which_sandbox(got, off);
     if (w < 0) {
-      e.str("cls", "out").wide("addr", (W)reinterpret_cast<uintptr_t>(got));
+      cls = "out";
+      addr = (W)reinterpret_cast<uintptr_t>(got);
     } else {
-      e.str("cls", "in").str("sb", std::string("s") + std::to_string(w)).num("off", off);
+      cls = "in";
+      sbn = std::string("s") + std::to_string(w);
     }
   }
-  out.put(e);
+  g_ptr_runs[pos].add(pos, rep, outc, cls, sbn, off, addr);
 }
 
 static void ptr_tests(std::mt19937_64& rng, bool thorough)
 {
   std::vector<W> reps;
   long dense = thorough ? (1L << 20) : (1L << 16);
-  for (long r = 0; r < dense; r++) {
+  for (long r = 0; r < dense && (W)r <= (W)std::numeric_limits<GP>::max(); r++) {
     reps.push_back(r);
   }
   for (int k : { 16, 20, 24, 31, 32, 33, 47, 48, 63, 64 }) {
@@ -613,6 +677,7 @@ static void ptr_tests(std::mt19937_64& rng, bool thorough)
     r = guarded([&] { got = sandbox_reinterpret_cast<char*>(*pp).UNSAFE_unverified(); });
     ptr_event("reinterpret_cast(volatile)", rw, got, r);
   }
+  ptr_flush();
   cb.unregister();
   // stores: every offset of the region, null; the representation written must be the offset
   for (long off = -1; off < SIZE; off++) {
